@@ -31,11 +31,19 @@ type checkSpec struct {
 	quickS   int    // internal deadline per worker, seconds
 	thoroS   int
 	gomaxp   string // GOMAXPROCS for workers
+	extra    []leg  // further legs (other packages) whose results are merged in
 	floor    int64  // vacuity floor: minimum evaluations expected on the unchanged tree (quick)
 	minClass int    // vacuity floor: minimum distinct classes
 }
 
+type leg struct {
+	modDir, pkg, test string
+	shards            int
+}
+
 var checks = map[string]checkSpec{
+	"C02": {modDir: repoDir, pkg: "./internal/upload", test: "TestVerifC02", quickS: 150, thoroS: 1200, gomaxp: "2", floor: 4000, minClass: 8,
+		extra: []leg{{repoDir, "./internal/telemetry", "TestVerifC02Mode", 8}, {repoDir, "./internal/counter", "TestVerifC02Counter", 1}}},
 	"C01": {modDir: repoDir, pkg: "./internal/upload", test: "TestVerifC01", quickS: 150, thoroS: 1200, gomaxp: "2", floor: 5000, minClass: 6},
 	"C05": {modDir: repoDir, pkg: "./internal/counter", test: "TestVerifC05", quickS: 150, thoroS: 1200, gomaxp: "2", floor: 1000, minClass: 6},
 	"C10": {modDir: repoDir, pkg: "./internal/counter", test: "TestVerifC10", quickS: 150, thoroS: 1200, gomaxp: "2", floor: 100000, minClass: 6},
@@ -162,10 +170,6 @@ func main() {
 		return
 	}
 
-	n := spec.shards
-	if n == 0 {
-		n = runtime.NumCPU()
-	}
 	budget := spec.quickS
 	if tier == "thorough" {
 		budget = spec.thoroS
@@ -183,48 +187,20 @@ func main() {
 	outDir := filepath.Join(verifDir, ".build", "out", id)
 	os.RemoveAll(outDir)
 	os.MkdirAll(outDir, 0o755)
-	results := make([]*result, n)
-	errs := make([]string, n)
-	var wg sync.WaitGroup
-	for i := 0; i < n; i++ {
-		wg.Add(1)
-		go func(i int) {
-			defer wg.Done()
-			out := filepath.Join(outDir, fmt.Sprintf("shard%d.json", i))
-			cmd := exec.Command(bin, "-test.run", "^"+spec.test+"$", "-test.timeout", "0")
-			cmd.Dir = outDir
-			gmp := spec.gomaxp
-			if gmp == "" {
-				gmp = "2"
-			}
-			cmd.Env = append(os.Environ(), "VERIF_TIER="+tier, fmt.Sprintf("VERIF_SHARD=%d", i), fmt.Sprintf("VERIF_NSHARDS=%d", n),
-				"VERIF_OUT="+out, "VERIF_SCRATCH="+scratch, fmt.Sprintf("VERIF_BUDGET_S=%d", budget), "GOMAXPROCS="+gmp, "VERIF_SEED="+os.Getenv("VERIF_SEED"))
-			logf, _ := os.Create(filepath.Join(outDir, fmt.Sprintf("shard%d.log", i)))
-			cmd.Stdout, cmd.Stderr = logf, logf
-			err := cmd.Run()
-			logf.Close()
-			data, rerr := os.ReadFile(out)
-			if rerr != nil {
-				tail, _ := os.ReadFile(filepath.Join(outDir, fmt.Sprintf("shard%d.log", i)))
-				if len(tail) > 3000 {
-					tail = tail[len(tail)-3000:]
-				}
-				errs[i] = fmt.Sprintf("worker %d produced no result (%v):\n%s", i, err, tail)
-				return
-			}
-			var r result
-			if jerr := json.Unmarshal(data, &r); jerr != nil {
-				errs[i] = fmt.Sprintf("worker %d: bad result: %v", i, jerr)
-				return
-			}
-			results[i] = &r
-		}(i)
-	}
-	wg.Wait()
-	for _, e := range errs {
-		if e != "" {
-			die(2, "%s", e)
+	legs := append([]leg{{spec.modDir, spec.pkg, spec.test, spec.shards}}, spec.extra...)
+	var results []*result
+	n := 0
+	for li, lg := range legs {
+		lbin := bin
+		if li > 0 {
+			lbin = buildPkg(id, lg.modDir, lg.pkg)
 		}
+		ls := lg.shards
+		if ls == 0 {
+			ls = runtime.NumCPU()
+		}
+		n += ls
+		results = append(results, runLeg(li, lbin, lg.test, ls, tier, budget, spec.gomaxp, scratch, outDir)...)
 	}
 
 	// Merge.
@@ -386,6 +362,55 @@ func main() {
 	}
 }
 
+
+// runLeg runs one harness binary in ls parallel workers and returns their results.
+func runLeg(li int, bin, test string, ls int, tier string, budget int, gmp, scratch, outDir string) []*result {
+	results := make([]*result, ls)
+	errs := make([]string, ls)
+	var wg sync.WaitGroup
+	for i := 0; i < ls; i++ {
+		wg.Add(1)
+		go func(i int) {
+			defer wg.Done()
+			tag := fmt.Sprintf("leg%d-shard%d", li, i)
+			out := filepath.Join(outDir, tag+".json")
+			cmd := exec.Command(bin, "-test.run", "^"+test+"$", "-test.timeout", "0")
+			cmd.Dir = outDir
+			if gmp == "" {
+				gmp = "2"
+			}
+			cmd.Env = append(os.Environ(), "VERIF_TIER="+tier, fmt.Sprintf("VERIF_SHARD=%d", i), fmt.Sprintf("VERIF_NSHARDS=%d", ls),
+				"VERIF_OUT="+out, "VERIF_SCRATCH="+scratch, fmt.Sprintf("VERIF_BUDGET_S=%d", budget), "GOMAXPROCS="+gmp, "VERIF_SEED="+os.Getenv("VERIF_SEED"))
+			logf, _ := os.Create(filepath.Join(outDir, tag+".log"))
+			cmd.Stdout, cmd.Stderr = logf, logf
+			err := cmd.Run()
+			logf.Close()
+			data, rerr := os.ReadFile(out)
+			if rerr != nil {
+				tail, _ := os.ReadFile(filepath.Join(outDir, tag+".log"))
+				if len(tail) > 3000 {
+					tail = tail[len(tail)-3000:]
+				}
+				errs[i] = fmt.Sprintf("worker %s (%s) produced no result (%v):\n%s", tag, test, err, tail)
+				return
+			}
+			var r result
+			if jerr := json.Unmarshal(data, &r); jerr != nil {
+				errs[i] = fmt.Sprintf("worker %s: bad result: %v", tag, jerr)
+				return
+			}
+			results[i] = &r
+		}(i)
+	}
+	wg.Wait()
+	for _, e := range errs {
+		if e != "" {
+			die(2, "%s", e)
+		}
+	}
+	return results
+}
+
 // loadFindings reads /verif/known_findings.txt. Lines:
 //
 //	known: property=<id> sig=<signature> :: <what fails>
@@ -437,15 +462,27 @@ func gen() {
 	})
 }
 
-func build(id string, spec checkSpec) string {
+func build(id string, spec checkSpec) string { return buildPkg(id, spec.modDir, spec.pkg) }
+
+var built = map[string]string{}
+
+func buildPkg(id, modDir, pkg string) string {
 	gen()
-	bin := filepath.Join(verifDir, ".build", "bin", strings.NewReplacer("/", "_", ".", "").Replace(spec.modDir[len(repoDir):]+"_"+spec.pkg)+".test")
-	os.MkdirAll(filepath.Dir(bin), 0o755)
-	out, err := run(spec.modDir, goEnv(), "go", "test", "-c", "-overlay", filepath.Join(verifDir, ".build", "overlay.json"),
-		"-tags", "verif", "-vet=off", "-o", bin, spec.pkg)
-	if err != nil {
-		die(2, "build of %s harness failed (a rewritten package no longer compiles against the shims?): %v\n%s", id, err, out)
+	name := strings.Trim(strings.NewReplacer("/", "_", ".", "").Replace(modDir[len(repoDir):]+"_"+pkg), "_")
+	if name == "" {
+		name = "root"
 	}
+	bin := filepath.Join(verifDir, ".build", "bin", name+".test")
+	if built[bin] != "" {
+		return bin
+	}
+	os.MkdirAll(filepath.Dir(bin), 0o755)
+	out, err := run(modDir, goEnv(), "go", "test", "-c", "-overlay", filepath.Join(verifDir, ".build", "overlay.json"),
+		"-tags", "verif", "-vet=off", "-o", bin, pkg)
+	if err != nil {
+		die(2, "build of %s harness (%s) failed (a rewritten package no longer compiles against the shims?): %v\n%s", id, pkg, err, out)
+	}
+	built[bin] = bin
 	return bin
 }
 
@@ -458,13 +495,15 @@ func buildAll() {
 	sort.Strings(ids)
 	for _, id := range ids {
 		s := checks[id]
-		key := s.modDir + s.pkg
-		if done[key] {
-			continue
+		for _, lg := range append([]leg{{s.modDir, s.pkg, s.test, 0}}, s.extra...) {
+			key := lg.modDir + lg.pkg
+			if done[key] {
+				continue
+			}
+			done[key] = true
+			t := time.Now()
+			buildPkg(id, lg.modDir, lg.pkg)
+			fmt.Printf("built harness %s in %.1fs\n", lg.pkg, time.Since(t).Seconds())
 		}
-		done[key] = true
-		t := time.Now()
-		build(id, s)
-		fmt.Printf("built harness for %s (%s) in %.1fs\n", id, s.pkg, time.Since(t).Seconds())
 	}
 }
